@@ -121,6 +121,17 @@ def run_property(prop, tier, seed, impl="py", only=None):
     with mp.Pool(nproc, maxtasksperchild=4) as pool:
         results = pool.map(_job, jobs, chunksize=1)
 
+    if os.environ.get("VC_PROFILE"):
+        tops = sorted(((res.get("wall", 0), hid, prove.case_name(case)) for (hid, case, *_), res in zip(jobs, results)),
+                      reverse=True)[:15]
+        for w, hid, cn in tops:
+            rep.out("  profile: %7.1fs %s[%s]" % (w, hid, cn))
+        per = {}
+        for (hid, case, *_), res in zip(jobs, results):
+            per[hid] = per.get(hid, 0) + res.get("wall", 0)
+        for hid, w in sorted(per.items(), key=lambda x: -x[1])[:12]:
+            rep.out("  profile-total: %7.1fs %s" % (w, hid))
+
     # ---- second pass for harnesses with refutations inside known regions
     rerun = []
     for (hid, case, tmo, _, _, mp_), res in zip(jobs, results):
@@ -216,6 +227,10 @@ def run_property(prop, tier, seed, impl="py", only=None):
         if hid not in live_harness:
             rep.errors.append("%s: every case is excluded by its own assumptions (vacuous harness)" % hid)
 
+    def nbound(h):
+        b = getattr(h, "bound", None)
+        return b[tier] if isinstance(b, dict) and tier in b else T["standin"]
+
     def do_native(job):
         kind, h, case, res, ref = job
         cname = prove.case_name(case)
@@ -226,7 +241,7 @@ def run_property(prop, tier, seed, impl="py", only=None):
             r["seconds"] = time.time() - t0
             return job, None, r
         if kind == "bounded":
-            r = native_call(["sample", h.id, str(T["standin"]), str(seed), case_json])
+            r = native_call(["sample", h.id, str(nbound(h)), str(seed), case_json])
             return job, None, r
         if kind == "replay":
             lab, model, _ = ref
@@ -280,7 +295,7 @@ def run_property(prop, tier, seed, impl="py", only=None):
             regs = sorted({k["region"] for k in known if k["harness"] == h.id and k.get("region")})
             if regs:
                 case_json = json.dumps({k: list(v) for k, v in case.items()})
-                r2 = native_call(["sample", h.id, str(T["standin"]), str(seed), case_json, json.dumps(regs)])
+                r2 = native_call(["sample", h.id, str(nbound(h)), str(seed), case_json, json.dumps(regs)])
                 if r2.get("status") != "error" and not r2.get("fails") and r2.get("pass", 0) > 0:
                     for k in [k for k in known if k["harness"] == h.id]:
                         rep.known.append(k)
@@ -292,7 +307,7 @@ def run_property(prop, tier, seed, impl="py", only=None):
                     r = r2 if r2.get("fails") else r
         if kind == "bounded":
             rep.declared_bounded.append({"harness": h.id, "case": cname, "cases": r["pass"], "skipped": r["skip"],
-                                         "exhaustive": bool(r.get("exhaustive")), "bound": T["standin"],
+                                         "exhaustive": bool(r.get("exhaustive")), "bound": nbound(h),
                                          "functions": h.functions, "note": h.note})
             if r["fails"]:
                 f = r["fails"][0]
